@@ -49,10 +49,12 @@ ASSUME Sensitive ==
   /\ RModel.eq[ShortX][FlipX] = 1 /\ RModel.eq[FlipX][ShortX] = 0 /\ Exempt(Nodes[ShortX], Nodes[FlipX])
   /\ PrintT(<<"UNIVERSE", N, Cardinality(Base)>>)
 
-VARIABLE x
-MCInit == x = 0
-CheckRow == x < N /\ x' = x + 1
-MCSpec == MCInit /\ [][CheckRow]_x
+\* The reference relation is computed once (Init) and carried in a state variable: TLC does not cache the
+\* constant definition RModel, every reference to it would recompute the whole matrix.
+VARIABLES x, rel
+MCInit == x = 0 /\ rel = RModel
+CheckRow == x < N /\ x' = x + 1 /\ UNCHANGED rel
+MCSpec == MCInit /\ [][CheckRow]_<<x, rel>>
 \* every law holds on every pair of the reference relation
-LawsHoldOnModel == x >= 1 => \A law \in Laws : Violations(RModel, law, x) = {}
+LawsHoldOnModel == x >= 1 => \A law \in Laws : Violations(rel, law, x) = {}
 =============================================================================
